@@ -49,6 +49,12 @@ var classes = []classSpec{
 	{`[^\s"'(),;\[\]{}]`, []string{"a", "é", "\U0001F600", "-", "\U0001F64F", "\uffff", "\U00010000"}},
 	{`[a-cx-z0-37-9_A-CX-Z!-#\x{1F600}-\x{1F64F}é]`, []string{"b", "y", "8", "_", "\U0001F600", "é", "#"}},
 	{`[^\x00-\x{FFFF}]`, []string{"\U0001F600", "\U00010000", "\U0010FFFF"}},
+	// Unicode categories: ranges that contain U+FFFD and whose ends take the same number of bytes (what an
+	// invalid byte decodes to lies inside them)
+	{`\PL`, []string{"-", "1", "\ufffd", "\xff", "\xe2\x82", "☺"}},
+	{`\p{So}`, []string{"☺", "\ufffd", "©", "\xf0\x9f"}},
+	{`[^\pL\pN\s]`, []string{"-", "\ufffd", "\xc0", "☺", "!"}},
+	{`\pL`, []string{"a", "é", "日", "\u212a", "\u017f"}},
 }
 
 var literals = []string{"a", "b", "c", "ab", "abc", "x", "é", "日本", "ß", ".", "+", "(", ")", "*", "[", " ", "\n", "\r\n", "\"", "'", "<", "&", ">", "-", "0", "1", "12", "=", "\\", "K", "k", "s", "ks", "key", "Sk", "#", "/*", "*/", "${", "}", "`", "\x1b[", "\x7f", "\v", "\a", "\U000E0001"}
